@@ -363,11 +363,16 @@ def _joint(case: Dict[str, Any], d: pathlib.Path, res: Dict[str, Any]) -> None:
 
 def shard(ctx: runner.Ctx) -> None:
     n = ctx.n(1_600, 60_000)
-    counter = {"i": 0}
+    counter = {"i": 0, "pending": 0}
 
     def one(case: Dict[str, Any]) -> None:
         counter["i"] += 1
-        cli = counter["i"] % SUBPROCESS_EVERY == 0 and not (case["kind"] == "joint" and "op" in case)
+        if counter["i"] % SUBPROCESS_EVERY == 7:
+            counter["pending"] += 1
+        # the next single-run case after every 50th (first: the 7th) is repeated through the real CLIs
+        cli = counter["pending"] > 0 and not (case["kind"] == "joint" and "op" in case)
+        if cli:
+            counter["pending"] -= 1
         res = evaluate(case, ctx.scratch, cli)
         for reason in res["excluded"]:
             ctx.exclude(reason)
